@@ -329,7 +329,7 @@ class LoaderGroup(Generic[_K, _L]):
         all_tasks: list[DaskTaskList[AlignmentResult]] = []
         template_map = _normalize_template(templates)
         input_shape: tuple[int, int, int] | None = None
-        has_rotation = False
+        remainders: list[int] = []
         for key, loader in self:
             _tmps = template_map[key]
             model = alignment_model(
@@ -349,18 +349,15 @@ class LoaderGroup(Generic[_K, _L]):
             )
             all_tasks.append(tasks)
             input_shape = model.input_shape
-            has_rotation = model.has_rotation
+            # number of templates of this group (templates may be given per group)
+            remainders.append(len(_tmps) if model.has_rotation else -1)
 
         if input_shape is None:
             raise RuntimeError("LoaderGroup has no loader.")
 
         all_results = compute(all_tasks)
-        if has_rotation:
-            remainder = len(templates)
-        else:
-            remainder = -1
         out: list[tuple[_K, _L]] = []
-        for (key, loader), results in zip(self, all_results):
+        for (key, loader), results, remainder in zip(self, all_results, remainders):
             new = loader._post_align_multi_templates(
                 results,
                 input_shape,
